@@ -1,4 +1,5 @@
 import GomlVerif.Model.ParserFuel
+import GomlVerif.Lemmas.GrammarStep
 /-!
 # C04 — the logic that is supposed to keep the parser from hanging
 
@@ -495,3 +496,86 @@ theorem error_range_none_iff_no_tokens (ranges : List (Nat × Nat)) (cursor : Na
   · intro h; subst h; simp
 
 end Goml.ParserFuel
+
+/-! ## round 11: the grammar functions themselves (`Model/Grammar.lean`)
+
+`Goml.Grammar.run n f s` executes the model of the Rust grammar function `f` (all of `file.rs`, `expr.rs`,
+`pattern.rs`, `path.rs`, `stmt.rs`; the model's event list is compared event for event with `Parser.events` on
+every run). The theorems below hold for EVERY grammar function, every token list, every fuel level and every
+call budget `n`; they replace the `StepOK` closure argument, which assumed that item parsers are compositions
+of primitives, by a statement about the item parsers as they are written. -/
+namespace Goml.Grammar
+open Goml.Gen.Gram
+
+/-- **Every grammar function is a `StepOK` step**: it never touches the token list, never moves the
+cursor back, and never moves it past the end of the input. -/
+theorem grammar_stepOK (n : Nat) (f : Fn) (s : PS) :
+    (run n f s).toks = s.toks ∧ s.pos ≤ (run n f s).pos ∧
+      (s.pos ≤ s.toks.length → (run n f s).pos ≤ s.toks.length) :=
+  ⟨(run_inv n f s).toks, (run_inv n f s).mono, (run_inv n f s).bound⟩
+
+/-- **No token is skipped silently**: whatever a grammar function does, its output contains at least one
+`Advance` event for every position the cursor moved (so a token the cursor passed is in the tree). -/
+theorem grammar_advances_cover_cursor (n : Nat) (f : Fn) (s : PS) :
+    advsL s.out + ((run n f s).pos - s.pos) ≤ advsL (run n f s).out :=
+  (run_inv n f s).adv
+
+theorem body_fileItems : ∃ D, body .fileItems = .ifEof .skip (.seq D (.call .fileItems)) := ⟨_, rfl⟩
+theorem body_file : ∃ A B, body .file = .node K_FILE (.seq A (.seq B (.call .fileItems))) := ⟨_, _, rfl⟩
+
+/-- the item loop of `file()` can only be left at the real end of the input: if the call budget did not run
+out, `file_items` returns with the cursor at the end -/
+theorem fileItems_ends_at_eof : ∀ (n : Nat) (s : PS), (run n .fileItems s).oof = false → (run n .fileItems s).isEof = true := by
+  intro n
+  induction n with
+  | zero => intro s h; simp [run] at h
+  | succ n ih =>
+    intro s h
+    obtain ⟨D, hD⟩ := body_fileItems
+    rw [run, hD] at h ⊢
+    generalize ({ s with trace := s.trace ||| (1 <<< Fn.fileItems.id) } : PS) = s' at h ⊢
+    simp only [execS] at h ⊢
+    cases he : s'.isEof with
+    | true => simp only [he, ↓reduceIte]
+    | false =>
+      simp only [he, Bool.false_eq_true, ↓reduceIte] at h ⊢
+      cases ho : (execS (run n) D s').oof with
+      | true => simp only [ho, ↓reduceIte] at h; cases h
+      | false =>
+        simp only [ho, Bool.false_eq_true, ↓reduceIte] at h ⊢
+        exact ih _ h
+
+/-- **`file()` consumes every token** (for every token list): if the model's call budget did not run out
+(checked on every input of the tie; `grammar_terminates` is the missing piece, see `Props/C12.lean`), the
+cursor ends at the end of the input and the output holds at least one `Advance` per token. -/
+theorem file_consumes_all_tokens_partial (toks : List Nat) (h : (parseItems toks).oof = false) :
+    (parseItems toks).pos = toks.length ∧ toks.length ≤ advsL (parseItems toks).out := by
+  have hinv := run_inv (budget toks.length) .file (initPS toks)
+  have hpos : (parseItems toks).isEof = true := by
+    unfold parseItems at h ⊢
+    generalize budget toks.length = n at h ⊢
+    cases n with
+    | zero => simp [run] at h
+    | succ n =>
+      obtain ⟨A, B, hA⟩ := body_file
+      rw [run, hA] at h ⊢
+      generalize ({ initPS toks with trace := (initPS toks).trace ||| (1 <<< Fn.file.id) } : PS) = s' at h ⊢
+      simp only [execS] at h ⊢
+      cases ho : (execS (run n) B (execS (run n) A { s' with out := [] })).oof with
+      | true => simp only [ho, ↓reduceIte] at h; cases h
+      | false =>
+        simp only [ho, Bool.false_eq_true, ↓reduceIte] at h ⊢
+        exact fileItems_ends_at_eof n _ h
+  have ht := hinv.toks
+  have hb := hinv.bound (by simp [initPS])
+  have ha := hinv.adv
+  simp only [initPS] at ht hb ha
+  change (parseItems toks).toks = toks at ht
+  change (parseItems toks).pos ≤ toks.length at hb
+  simp only [PS.isEof, decide_eq_true_eq, ht] at hpos
+  refine ⟨by omega, ?_⟩
+  change advsL [] + ((parseItems toks).pos - 0) ≤ advsL (parseItems toks).out at ha
+  simp only [advsL] at ha
+  omega
+
+end Goml.Grammar
